@@ -1,9 +1,9 @@
 package main
 
 import (
-	"github.com/aml-org/amf-custom-validator/pkg/config"
 	"encoding/json"
 	"fmt"
+	"github.com/aml-org/amf-custom-validator/pkg/config"
 	"io"
 	"strings"
 )
@@ -20,6 +20,10 @@ type HistCase struct {
 	Interfere []string `json:"interfere,omitempty"`
 	// report configuration per position (nil = the default one)
 	RCs []*caseRC `json:"rcs,omitempty"`
+	// context documents (file name -> text) written BEFORE the position is validated; a document refers to one as
+	// "@context": "__CTX__/<file name>" (the runner puts a directory of its own there).  What a document means is what the
+	// referenced context says at the time of the call
+	Ctx []map[string]string `json:"ctx,omitempty"`
 }
 
 const amlCore = "http://a.ml/vocabularies/core#"
@@ -201,6 +205,46 @@ func genHist(g *G, n int, out io.Writer) {
 				h.Profile = "profile: hist configurations\nprefixes:\n  ex: " + NS + "\nviolation:\n  - v\nvalidations:\n  v:\n    targetClass: ex.T\n    message: m\n    propertyConstraints:\n      ex.zz:\n        minCount: 1\n"
 			}
 		}
+		if i%6 == 5 {
+			genHistCtx(g, &h)
+		}
 		enc.Encode(h)
+	}
+}
+
+// a history over documents whose @context is a REFERENCE to a context document that is revised between the calls
+func genHistCtx(g *G, h *HistCase) {
+	h.Profile = "profile: hist referenced contexts\nprefixes:\n  ex: " + NS + "\nviolation:\n  - named\nwarning:\n  - labelled\nvalidations:\n  named:\n    targetClass: ex.T\n    message: a T has a name\n    propertyConstraints:\n      ex.name:\n        minCount: 1\n  labelled:\n    targetClass: ex.T\n    message: a T has no label\n    propertyConstraints:\n      ex.label:\n        maxCount: 0\n"
+	h.Interfere = nil
+	h.RCs = nil
+	versions := []string{
+		`{"@context":{"T":"` + NS + `T","name":"` + NS + `name","label":"` + NS + `label"}}`,
+		`{"@context":{"T":"` + NS + `T","name":"` + NS + `label","label":"` + NS + `name"}}`,
+		`{"@context":{"T":"` + NS + `U","name":"` + NS + `name"}}`,
+		`{"@context":{"@vocab":"` + NS + `"}}`,
+	}
+	files := []string{"a.jsonld", "b.jsonld"}
+	docs := []string{}
+	for _, f := range files {
+		docs = append(docs,
+			`{"@context":"__CTX__/`+f+`","@id":"http://ex.org/n/0","@type":"T","name":"x"}`,
+			`{"@context":"__CTX__/`+f+`","@graph":[{"@id":"http://ex.org/n/0","@type":"T","label":"l"},{"@id":"http://ex.org/n/1","@type":"T","name":"y"}]}`)
+	}
+	// the same graphs with the context inline (first version): never affected by the files
+	docs = append(docs, `{"@context":{"T":"`+NS+`T","name":"`+NS+`name"},"@id":"http://ex.org/n/0","@type":"T","name":"x"}`)
+	h.Docs, h.Kinds, h.Ctx = nil, nil, nil
+	length := 5 + g.n(5)
+	for k := 0; k < length; k++ {
+		w := map[string]string{}
+		if k == 0 {
+			for _, f := range files {
+				w[f] = versions[g.n(len(versions))]
+			}
+		} else if g.coin(0.5) {
+			w[files[g.n(len(files))]] = versions[g.n(len(versions))]
+		}
+		h.Ctx = append(h.Ctx, w)
+		h.Docs = append(h.Docs, docs[g.n(len(docs))])
+		h.Kinds = append(h.Kinds, "graph-context-file")
 	}
 }
